@@ -50,6 +50,7 @@ def make_cells(ck):
                 cells.append(dict(target="gauss2", N=N, n_total=8 * N, mode="vec", kernel=kern, resample="mult", clustering=False, tkw=dict(half=500.0, rho=0.5)))
     # a run stopped half-way and continued by a new sampler with another particle count (stored batches of different sizes)
     cells.append(dict(target="gauss2", N=128, n_total=1024, mode="vec", kernel="tpcn", resample="mult", clustering=False, continue_with=512))
+    cells.append(dict(target="gauss4", N=128, n_total=1024, mode="vec", kernel="tpcn", resample="syst", clustering=False, xstyle="indexed"))
     return cells
 
 
